@@ -245,6 +245,10 @@ func (tr *FnTr) contractCallInfo(x ssa.Value, f *calleeInfo, ct *FuncContract, a
 		tr.vc.Oblige(tr.prefix+"pre."+name, labelOr(c.Label, i+1), Implies(tr.st.Reach, g), tr.pos(tr.curInstr.Pos()))
 		tr.st.Reach = tr.vc.Def("reach", And(tr.st.Reach, g))
 	}
+	if ct.NoLocks && !tr.top.refute && tr.st.Locks != nil {
+		o, j := tr.vc.Fresh("lk_o", SInt), tr.vc.Fresh("lk_j", SInt)
+		tr.vc.Oblige(tr.prefix+"pre."+name, "nolocks", Implies(tr.st.Reach, Eq(Select(Select(tr.st.Locks, o), j), Int(0))), tr.pos(tr.curInstr.Pos()))
+	}
 	// the callee's representation invariant is assumed at its entry: the caller establishes it
 	for i, c := range ct.DataInv {
 		if tr.top.refute {
